@@ -180,12 +180,16 @@ def list_lemmas(terms):
             n = e.decl().name()
             if n == 'length':
                 out.append(length(e.arg(0)) >= 0)
+                out.append((length(e.arg(0)) == 0) == VL.is_nil(e.arg(0)))
             elif n == 'app':
                 a, b = e.arg(0), e.arg(1)
                 out.append(length(e) == length(a) + length(b))
                 out.append(z3.Implies(VL.is_nil(b), e == a))
                 out.append(length(a) >= 0)
                 out.append(length(b) >= 0)
+                out.append(VL.is_nil(e) == z3.And(VL.is_nil(a), VL.is_nil(b)))
+                if z3.is_app(a) and a.decl().name() == 'app':
+                    out.append(e == app(a.arg(0), app(a.arg(1), b)))
             elif n == 'take':
                 out.append(z3.Implies(z3.And(e.arg(1) >= 0, e.arg(1) <= length(e.arg(0))), length(e) == e.arg(1)))
                 out.append(z3.Implies(e.arg(1) >= length(e.arg(0)), e == e.arg(0)))
